@@ -420,6 +420,10 @@ func (x *Exec) byContract(st *State, fr *Frame, n ast.Node, pc *ProcContract, os
 	if pc.Trusted {
 		x.trust("TRUSTED CONTRACT (body not verified): " + calleePkg + "." + pc.Key)
 	}
+	if x.usedPC == nil {
+		x.usedPC = map[*ProcContract]bool{}
+	}
+	x.usedPC[pc] = true
 	env := &CEnv{names: map[string]Term{}, st: st, old: st, tsub: tsub, ttypes: x.lastTypeArgs}
 	x.lastTypeArgs = nil
 	for k2, v := range x.extraNames {
